@@ -31,6 +31,14 @@ func (d *PlannerDrop) Process(ctx *shared.PlannerContext) (sql.ISelect, error) {
 	if err != nil {
 		return nil, err
 	}
+	// streams that differed only in a dropped label are one stream now: the fingerprint
+	// follows the new label set (as after a parser stage)
+	cols, err = patchCol(cols, "fingerprint", func(object sql.SQLObject) (sql.SQLObject, error) {
+		return sql.NewRawObject(`cityHash64(arraySort(arrayZip(mapKeys(labels),mapValues(labels))))`), nil
+	})
+	if err != nil {
+		return nil, err
+	}
 	main.Select(cols...)
 	return main, nil
 }
